@@ -14,7 +14,7 @@ import (
 // byte-wise (exact); equality of two symbolic strings is the equality of the sort (sound for proofs; a spurious
 // "different although byte-wise equal" model is possible and would show up as a counterexample that does not replay).
 
-const strPrelude = "(declare-fun slen (Str) (_ BitVec 64))\n(declare-fun sat (Str (_ BitVec 64)) (_ BitVec 8))\n"
+const strPrelude = "(declare-fun slen (Str) (_ BitVec 64))\n(declare-fun sat (Str (_ BitVec 64)) (_ BitVec 8))\n(declare-const str!empty Str)\n(assert (= (slen str!empty) (_ bv0 64)))\n"
 
 func (e *Engine) strLen(s *State, v StrV) Term {
 	if v.Const != nil {
@@ -65,7 +65,7 @@ func (e *Engine) strAt(s *State, v StrV, i Term) Term {
 func (e *Engine) strConst(s *State, c string) Term {
 	nm := fmt.Sprintf("str!%x", c)
 	if c == "" {
-		nm = "str!empty"
+		return Term{S: "str!empty", Sort: "Str"}
 	}
 	ax := fmt.Sprintf("(assert (= (slen %s) %s))", nm, intT(int64(len(c))).S)
 	if len(c) <= 256 {
